@@ -58,6 +58,12 @@ def read (s : RState) (n : Nat) : RState × Bytes := ({ s with buf := s.buf.drop
 /-- peer's or local close: later packets find no stream; buffered bytes stay readable -/
 def close (s : RState) : RState := { s with live := false }
 
+/-- a local `Close` has sent its close request and waits for the answer.  `up`: the routine keeps
+the receiving side up while it waits (`IbbClose.receivesWhileWaiting` of the close routine); then
+nothing changes for the receiver — packets of the peer that were in flight, and what the peer
+flushes when it handles the request, are accepted like any other until the answer is in -/
+def closeBegin (up : Bool) (s : RState) : RState := if up then s else close s
+
 /-- `Read` on the receiving side: data if any, else end-of-file once closed, else it blocks -/
 inductive ReadOut | data (b : Bytes) | eof | blocks
   deriving DecidableEq, Repr
@@ -201,5 +207,92 @@ def stdDecGroups : Bytes → Option Bytes
 def stdDec (b : Bytes) : Option Bytes := stdDecGroups (b.filter fun c => c ≠ 10 ∧ c ≠ 13)
 
 def std : Codec := ⟨stdEnc, stdDec⟩
+
+/-! ### the packet on the wire: the `seq` attribute is text
+
+`handlePayload` sees the attribute through `strconv.ParseUint(text, 10, 16)`.  The model splits
+this in two: *which natural number the text denotes* (`parseSeqAttr`: a non-empty string of ASCII
+digits, of any length — the number is NOT reduced modulo anything) and the comparison with the
+expected number in `recv` (`p.seq ≠ s.seq` over `Nat`).  A numeral above 65535 therefore denotes a
+number that is never the expected one and is refused as out of sequence; text that is no numeral
+(also a missing attribute) is a malformed packet (`bad-request`). -/
+
+/-- value of a string of ASCII digits (accumulator `acc`); `none` if some byte is not a digit -/
+def digitsVal : Bytes → Nat → Option Nat
+  | [], acc => some acc
+  | c :: cs, acc =>
+    if 48 ≤ c.toNat ∧ c.toNat ≤ 57 then digitsVal cs (acc * 10 + (c.toNat - 48)) else none
+
+inductive SeqAttr
+  | num (n : Nat)   -- a decimal numeral (leading zeros allowed), its value unbounded
+  | malformed       -- empty, a sign, blanks, hex / float notation, any other text
+  deriving DecidableEq, Repr
+
+def parseSeqAttr (b : Bytes) : SeqAttr :=
+  if b = [] then .malformed else match digitsVal b 0 with
+    | some n => .num n
+    | none => .malformed
+
+structure WirePacket where
+  known : Bool
+  seqAttr : Bytes      -- the attribute text
+  payload : Bytes
+  deriving DecidableEq, Repr
+
+/-- `handlePayload` on the packet as received: sid / closed check first, then the attribute,
+then everything `recv` does with the number it denotes -/
+def recvWire (cd : Codec) (s : RState) (w : WirePacket) : RState × Reply :=
+  if !(w.known && s.live) then (s, .itemNotFound)
+  else match parseSeqAttr w.seqAttr with
+    | .malformed => (s, .badRequest)
+    | .num n => recv cd s ⟨w.known, n, w.payload⟩
+
+/-- decimal numeral of a number (most significant digit first), for the theorems -/
+def decimalDigits : Nat → Nat → List Nat
+  | 0, _ => []
+  | fuel + 1, n => if n < 10 then [n] else decimalDigits fuel (n / 10) ++ [n % 10]
+
+/-- the attribute texts on which the real `handlePayload` is probed by `harness facts` (the same
+list, in the same order, is in `harness/c15/facts.go`) -/
+def seqAttrUniverse : List Bytes :=
+  [
+   [48],  -- '0'
+   [49],  -- '1'
+   [50],  -- '2'
+   [54, 53, 53, 51, 53],  -- '65535'
+   [54, 53, 53, 51, 54],  -- '65536'
+   [54, 53, 53, 51, 55],  -- '65537'
+   [54, 53, 53, 51, 56],  -- '65538'
+   [49, 51, 49, 48, 55, 50],  -- '131072'
+   [49, 51, 49, 48, 55, 51],  -- '131073'
+   [52, 50, 57, 52, 57, 54, 55, 50, 57, 54],  -- '4294967296'
+   [52, 50, 57, 52, 57, 54, 55, 50, 57, 55],  -- '4294967297'
+   [49, 56, 52, 52, 54, 55, 52, 52, 48, 55, 51, 55, 48, 57, 53, 53, 49, 54, 49, 54],  -- '18446744073709551616'
+   [49, 56, 52, 52, 54, 55, 52, 52, 48, 55, 51, 55, 48, 57, 53, 53, 49, 54, 49, 55],  -- '18446744073709551617'
+   [48, 48],  -- '00'
+   [48, 49],  -- '01'
+   [48, 48, 48, 49],  -- '0001'
+   [48, 48, 48, 48, 48, 48, 48, 48, 48, 48, 48, 48, 48, 48, 48, 48, 48, 48, 48, 48, 49],  -- '000000000000000000001'
+   [],  -- ''
+   [45, 49],  -- '-1'
+   [45, 48],  -- '-0'
+   [43, 49],  -- '+1'
+   [32, 49],  -- ' 1'
+   [49, 32],  -- '1 '
+   [48, 120, 49],  -- '0x1'
+   [49, 46, 48],  -- '1.0'
+   [49, 101, 48],  -- '1e0'
+   [111, 110, 101],  -- 'one'
+   [217, 161]  -- '١'
+  ]
+
+def showReply : Reply → String
+  | .ack => "ack" | .itemNotFound => "inf" | .unexpectedRequest => "unx"
+  | .badRequest => "bad" | .resourceConstraint => "res"
+
+/-- the model's answer to one probe: a live stream that expects packet `expected`, a packet with
+that attribute text and the payload `QQ==` -/
+def seqAttrModel (expected : Nat) (attr : Bytes) : String :=
+  showReply (recvWire std ⟨true, expected, [], 0⟩ ⟨true, attr, [81, 81, 61, 61]⟩).2
 
 end XmppModel.Ibb
